@@ -353,7 +353,7 @@ fn get_patirion_list_form_s3(
     let partition_list = rt.block_on(async {
         client
             .list_objects_v2()
-            .set_prefix(Some(format!("{}/{}", NUN_S3_PREFIX.to_string(), db_name)))
+            .set_prefix(Some(format!("{}/{}/", NUN_S3_PREFIX.to_string(), db_name)))
             .bucket(bucket)
             .send()
             .await
